@@ -215,6 +215,28 @@ func runEqualsFieldCoverage(rr *RuleRun) {
 			return true
 		})
 		var problems []string
+		// nil-ness of a container field is representation, not identity
+		ast.Inspect(fd.Body, func(n ast.Node) bool {
+			be, ok := n.(*ast.BinaryExpr)
+			if !ok || (be.Op != token.EQL && be.Op != token.NEQ) {
+				return true
+			}
+			for _, pair := range [][2]ast.Expr{{be.X, be.Y}, {be.Y, be.X}} {
+				se, ok := ast.Unparen(pair[0]).(*ast.SelectorExpr)
+				if !ok || !isNilIdent(info, pair[1]) {
+					continue
+				}
+				if o := objOf(info, se.X); o == recvObj || o == asserted {
+					if ft := fieldType(st, se.Sel.Name); ft != nil {
+						switch ft.Underlying().(type) {
+						case *types.Map, *types.Slice:
+							problems = append(problems, fmt.Sprintf("field %s is compared with nil: whether an empty container is nil or allocated is a matter of representation, so two structurally identical types can compare unequal", se.Sel.Name))
+						}
+					}
+				}
+			}
+			return true
+		})
 		for _, f := range fields {
 			if !reads[f][recvObj] || !reads[f][asserted] {
 				problems = append(problems, fmt.Sprintf("field %s is not compared between the receiver and the other type", f))
